@@ -107,10 +107,26 @@ BindableC(c) ==
     [] c.k = "neg"   -> {}
     [] c.k = "or"    -> SeqUnion(Len(c.alts), LAMBDA i : BindableBody(c.alts[i]))
 
-(* Head fields of an injectible rule that the caller must supply. *)
-InputFields(r) ==
+(* Parameters of an injectible rule: head fields that are a plain variable   *)
+(* the body cannot bind - the caller must supply them.                       *)
+ParamFields(r) ==
   {r.head[i].f : i \in {j \in 1..Len(r.head) :
-                           ~(DVE(r.head[j].e) \subseteq BindableBody(r.body))}}
+                           r.head[j].e.k = "var"
+                           /\ r.head[j].e.name \notin BindableBody(r.body)}}
+InputFields(r) == ParamFields(r)
+
+HeadExprAt(r, f) == r.head[CHOOSE i \in 1..Len(r.head) : r.head[i].f = f].e
+
+(* A call of an injectible rule that supplies the fields `supplied` and uses *)
+(* the fields `referenced` is computable: every referenced parameter is      *)
+(* supplied, every other referenced field only needs variables the body      *)
+(* binds or supplied parameters.                                             *)
+CallOK(r, supplied, referenced) ==
+  LET avail == BindableBody(r.body)
+               \cup {HeadExprAt(r, f).name : f \in supplied \cap ParamFields(r)}
+  IN \A f \in referenced :
+       IF f \in ParamFields(r) THEN f \in supplied
+       ELSE DVE(HeadExprAt(r, f)) \subseteq avail
 
 Ready(c, bound, V, ctx) ==
   CASE c.k = "atom"  -> \* an argument may use variables bound by other arguments of the same atom
@@ -118,7 +134,9 @@ Ready(c, bound, V, ctx) ==
                                                                BareUnbound(c.args[j].e, bound)}}
                             inputs == IF ctx.preds[c.p].inline
                                       THEN InputFields(ctx.preds[c.p].rules[1]) ELSE {}
-                        IN \A i \in 1..Len(c.args) :
+                            fs == {c.args[i].f : i \in 1..Len(c.args)}
+                        IN /\ ctx.preds[c.p].inline => CallOK(ctx.preds[c.p].rules[1], fs, fs)
+                           /\ \A i \in 1..Len(c.args) :
                              (BareUnbound(c.args[i].e, bound) /\ c.args[i].f \notin inputs)
                              \/ (~BareUnbound(c.args[i].e, bound)
                                  /\ Ground(c.args[i].e, bound \cup own, V))
